@@ -18,6 +18,9 @@ def run(ctx):
     runlib.lean_part(ctx, "RootSim.Props.PrefixUnique", THEOREMS_D)
     # glue (E): every reachable state of the abstract global Time Warp machine satisfies Hist (Props/C01Glue.lean)
     runlib.lean_part(ctx, "RootSim.Props.C01Glue", ['RootSim.C01Glue.reachable_invariant','RootSim.C01Glue.reachable_hist','RootSim.C01Glue.tw_prefix_of_sequential','RootSim.C01Glue.tw_equals_sequential','RootSim.C01Glue.tw_quiescent_equals_sequential','RootSim.C01Glue.tw_quiescent_final','RootSim.C01Glue.tw_quiescent_is_sequential','RootSim.C01Glue.step_function_exact'])
+    # LP-local simulation theorem: every branch of the concrete LP step function (LPFull.step) is ONE action of the abstract machine
+    # (or a stutter), with exact bag bookkeeping (Props/C01Refine.lean); the run-time twshadow check below is its instance on real traces
+    runlib.lean_part(ctx, "RootSim.Props.C01Refine", ['RootSim.C01Refine.step_preserves_rinv','RootSim.C01Refine.plain_step_refines_exec','RootSim.C01Refine.anti_step_refines_antiRollback','RootSim.C01Refine.discard_steps_refine_annihilate','RootSim.C01Refine.lp_step_refines_tw','RootSim.C01Refine.lp_step_keeps_reachable','RootSim.C01Refine.checkpoint_refines_stutter','RootSim.C01Refine.fossil_refines_stutter','RootSim.C01Refine.cmpOk_is_needed','RootSim.Refine.cmpOk_of_content'])
     runlib.lean_part(ctx, "RootSim.Props.C01Term", ["RootSim.C01Term.tw_prefix_states_exact", "RootSim.C01Term.tw_first_true_point_exact", "RootSim.C01Term.tw_committed_predicate_is_sequential", "RootSim.C01Term.tw_quiescent_first_true_exact"])
     agg = runlib.run_matrix(ctx, "par re-execution + final LP states vs Lean sequential executor",
                             40, 1200, oracle_keys=("s_rb_mismatch", "s_below_gvt", "s_double_free", "s_vote_uncommitted"),
